@@ -14,6 +14,7 @@ import (
 	"strings"
 	"time"
 
+	"cosmossdk.io/collections"
 	sdkmath "cosmossdk.io/math"
 	"github.com/cosmos/cosmos-sdk/client"
 	codectypes "github.com/cosmos/cosmos-sdk/codec/types"
@@ -47,19 +48,38 @@ const (
 )
 
 type pendingTx struct {
-	hex  string
-	kind string // label for the histogram: "<msg>[/<bad-kind>]"
-	prop bool   // a MsgSubmitProposal (result code 0 => a new proposal id)
+	hex   string
+	kind  string // label for the histogram: "<msg>[/<bad-kind>]"
+	prop  bool   // a MsgSubmitProposal (result code 0 => a new proposal id)
+	shape string // message type + the argument its gas mostly depends on (key of lastGas)
+}
+
+// shapeKey groups transactions whose gas use is expected to be (nearly) equal.
+func shapeKey(m sdk.Msg) string {
+	n := msgName(m)
+	switch x := m.(type) {
+	case *crosschaintypes.MsgSendToExternal:
+		n += ":" + x.Amount.Denom
+	case *crosschaintypes.MsgRequestBatch:
+		n += ":" + x.Denom
+	case *crosschaintypes.MsgIncreaseBridgeFee:
+		n += ":" + x.AddBridgeFee.Denom
+	case *govv1.MsgVote:
+		n += fmt.Sprintf(":%d", x.Option)
+	}
+	return n
 }
 
 type gen struct {
-	seed int64
-	rng  *rand.Rand
-	c    *detx.Chain
-	cfg  client.TxConfig
-	out  *hx.Out
-	hist *detx.History
-	obs  []detx.Obs
+	seed  int64
+	rng   *rand.Rand
+	c     *detx.Chain
+	cfg   client.TxConfig
+	out   *hx.Out
+	hist  *detx.History
+	obs   []detx.Obs
+	kinds [][]string // per block: the kind label of every transaction (diagnostics of a differing result)
+	lines []string   // per block: the compared observation line of the generator's own execution
 
 	vals     []detx.ValSpec
 	users    []detx.Key
@@ -71,16 +91,31 @@ type gen struct {
 	migTo    detx.Key
 	outsider detx.Key
 
-	seq      map[string]uint64
-	pend     []pendingTx
-	inj      []detx.Inject
-	injKind  []string
-	nextProp uint64
-	evNonce  uint64 // last external event nonce claimed
-	extBlock uint64 // external chain height
-	debug    bool
-	govAddr  string
-	fxToken  string // external contract of the FX bridge token
+	seq          map[string]uint64
+	pend         []pendingTx
+	inj          []detx.Inject
+	injKind      []string
+	nextProp     uint64
+	evNonce      uint64 // last external event nonce claimed
+	extBlock     uint64 // external chain height
+	debug        bool
+	govAddr      string
+	fxToken      string // external contract of the FX bridge token
+	tokens       []bridgeTok
+	nSmall       int               // the last nSmall oracles bond the minimum: a proposal can drop several of them at once
+	lastGas      map[string]uint64 // gas used by the last successful transaction of a kind (boundary-biased gas limits)
+	probes       [][2]string       // (op line, observation) of UpdateProposalOracles probes against the real keeper
+	tallies      [][2]string       // (op line, observation) of gov Tally probes
+	erc20Holders [][2]string       // (external token contract, user index) of deposits that were converted to the ERC-20 side
+}
+
+// bridgeTok is a many-to-one coin registered by governance whose aliases are its bridge denominations.
+type bridgeTok struct {
+	sym      string
+	base     string
+	contract string // on the eth chain
+	denom    string // eth bridge denomination (alias of base)
+	aliases  []string
 }
 
 func fx(n int64) sdk.Coin {
@@ -95,7 +130,9 @@ func newGen(seed int64, out *hx.Out) *gen {
 	g := &gen{seed: seed, rng: rand.New(rand.NewSource(seed)), out: out, seq: map[string]uint64{}, nextProp: 1,
 		debug: os.Getenv("VERIF_C17_DEBUG") != "", govAddr: authtypes.NewModuleAddress(govtypes.ModuleName).String()}
 	nVal := 3 + g.rng.Intn(3)
-	nOra := 3 + g.rng.Intn(3)
+	nOra := 7 + g.rng.Intn(3)
+	g.nSmall = 2 + g.rng.Intn(2)
+	g.lastGas = map[string]uint64{}
 	for i := 0; i < nVal; i++ {
 		g.vals = append(g.vals, detx.ValSpec{
 			Oper:  detx.CosmosKey(seed, fmt.Sprintf("val%d", i)),
@@ -129,6 +166,15 @@ func newGen(seed int64, out *hx.Out) *gen {
 	accs = append(accs, detx.AccSpec{Addr: g.migFrom.Acc(), Coins: sdk.NewCoins(fx(5_000))})
 	accs = append(accs, detx.AccSpec{Addr: g.outsider.Acc(), Coins: sdk.NewCoins(fx(300_000))})
 	g.fxToken = ethcrypto.PubkeyToAddress(detx.ECDSA(seed, "fx-token").PublicKey).Hex()
+	for i, sym := range []string{"TKA", "TKB", "TKC"}[:2+g.rng.Intn(2)] {
+		c := ethcrypto.PubkeyToAddress(detx.ECDSA(seed, "token-"+sym).PublicKey).Hex()
+		tk := bridgeTok{sym: sym, base: strings.ToLower(sym), contract: c, denom: crosschaintypes.NewBridgeDenom(ethChain, c)}
+		tk.aliases = []string{tk.denom}
+		if i%2 == 0 { // also bridged from a second chain: two aliases
+			tk.aliases = append(tk.aliases, crosschaintypes.NewBridgeDenom("bsc", ethcrypto.PubkeyToAddress(detx.ECDSA(seed, "bsc-token-"+sym).PublicKey).Hex()))
+		}
+		g.tokens = append(g.tokens, tk)
+	}
 
 	gd := detx.BuildGenesis(detx.GenesisSpec{ChainID: chainID, TimeUnix: genesisUnix, Vals: g.vals, Accounts: accs})
 	c, err := detx.NewChain(gd)
@@ -206,12 +252,34 @@ func (g *gen) txv(k detx.Key, bad string, gas uint64, msgs ...sdk.Msg) {
 	case "wrong-fee-denom":
 		t.Fee = sdk.NewCoins(sdk.NewCoin("usdt", sdkmath.NewInt(1_000_000)))
 		advance = false
+	case "tight-sim", "tight-last": // gas limit at / just around what the transaction needs (decided below)
 	default:
 		panic("unknown bad kind " + bad)
 	}
 	h, err := detx.SignCosmos(g.cfg, t)
 	if err != nil {
 		panic(fmt.Sprintf("sign %s: %v", msgName(msgs[0]), err))
+	}
+	if strings.HasPrefix(bad, "tight") {
+		// boundary-biased gas limit: the gas the last successful transaction of this kind used (exactly, +-1, a little
+		// more or less), or what a simulation on this instance reports plus a small offset
+		limit := uint64(0)
+		if lg, ok := g.lastGas[shapeKey(msgs[0])]; ok && bad == "tight-last" {
+			limit = uint64(int64(lg) + []int64{0, -1, 1, -40, 40, 700, -700}[g.rng.Intn(7)])
+		} else if bz, derr := hex.DecodeString(h); derr == nil {
+			if gi, _, serr := g.c.App.Simulate(bz); serr == nil && gi.GasUsed > 0 {
+				limit = uint64(int64(gi.GasUsed) + []int64{0, -1, 1, -300, 300, -2500, 2500, 6000}[g.rng.Intn(8)])
+				bad = "tight-sim"
+			}
+		}
+		if limit > 0 {
+			t.Gas, t.Fee = limit, detx.DefaultFee(limit)
+			if h, err = detx.SignCosmos(g.cfg, t); err != nil {
+				panic(err)
+			}
+		} else {
+			bad = "tight-none"
+		}
 	}
 	if advance {
 		g.seq[k.Addr()] = sq + 1
@@ -221,10 +289,33 @@ func (g *gen) txv(k detx.Key, bad string, gas uint64, msgs ...sdk.Msg) {
 		kind += "/" + bad
 	}
 	_, isProp := msgs[0].(*govv1.MsgSubmitProposal)
-	g.pend = append(g.pend, pendingTx{hex: h, kind: kind, prop: isProp && (bad == "" || bad == "zero-fee")})
+	shape := ""
+	if len(msgs) == 1 {
+		shape = shapeKey(msgs[0])
+	}
+	g.pend = append(g.pend, pendingTx{hex: h, kind: kind, prop: isProp && (bad == "" || bad == "zero-fee"), shape: shape})
 }
 
 func (g *gen) tx(k detx.Key, msgs ...sdk.Msg) { g.txv(k, "", 3_000_000, msgs...) }
+
+// txMaybeTight queues the transaction with an ample gas limit, or (one time in three) with a limit at the boundary of
+// what it needs, so that any replica-dependent gas cost flips its outcome.
+func (g *gen) txMaybeTight(k detx.Key, msgs ...sdk.Msg) {
+	switch g.rng.Intn(3) {
+	case 0:
+		mode := "tight-sim"
+		if g.rng.Intn(2) == 0 {
+			mode = "tight-last"
+		}
+		if _, pending := g.seq[k.Addr()]; !pending { // a simulation needs the committed sequence number
+			g.txv(k, mode, 3_000_000, msgs...)
+			return
+		}
+		g.txv(k, "tight-last", 3_000_000, msgs...)
+	default:
+		g.tx(k, msgs...)
+	}
+}
 
 // eth routes a signed MsgEthereumTx directly to the EVM message server (the snapshot's tx decoder cannot deliver
 // MsgEthereumTx: no custom GetSigners for its bytes `from` field); bad variants go through a real tx (and fail there).
@@ -290,11 +381,11 @@ func (g *gen) endBlock(dt time.Duration, note string) detx.Obs {
 		from := g.anyUser()
 		switch g.rng.Intn(4) {
 		case 0:
-			g.tx(from, stakingtypes.NewMsgDelegate(from.Addr(), g.valAddr(), fxFrac(int64(1000+g.rng.Intn(100000)))))
+			g.txMaybeTight(from, stakingtypes.NewMsgDelegate(from.Addr(), g.valAddr(), fxFrac(int64(1000+g.rng.Intn(100000)))))
 		case 1:
-			g.tx(from, distrtypes.NewMsgWithdrawDelegatorReward(from.Addr(), g.valAddr()))
+			g.txMaybeTight(from, distrtypes.NewMsgWithdrawDelegatorReward(from.Addr(), g.valAddr()))
 		default:
-			g.tx(from, banktypes.NewMsgSend(from.Acc(), g.anyUser().Acc(), sdk.NewCoins(fxFrac(int64(1+g.rng.Intn(999))))))
+			g.txMaybeTight(from, banktypes.NewMsgSend(from.Acc(), g.anyUser().Acc(), sdk.NewCoins(fxFrac(int64(1+g.rng.Intn(999))))))
 		}
 	}
 	act := g.c.ActiveVals()
@@ -329,6 +420,12 @@ func (g *gen) endBlock(dt time.Duration, note string) detx.Obs {
 	g.inj, g.injKind = nil, nil
 	g.hist.Blocks = append(g.hist.Blocks, b)
 	g.obs = append(g.obs, o)
+	g.lines = append(g.lines, blockLine(g.c, o))
+	var ks []string
+	for _, p := range g.pend {
+		ks = append(ks, p.kind)
+	}
+	g.kinds = append(g.kinds, ks)
 	if o.Err != "" {
 		g.out.Count("block-error:" + o.Err)
 	}
@@ -342,6 +439,9 @@ func (g *gen) endBlock(dt time.Duration, note string) detx.Obs {
 			}
 			if p.prop && r.Code == 0 {
 				g.nextProp++
+			}
+			if r.Code == 0 && p.shape != "" {
+				g.lastGas[p.shape] = uint64(r.GasUsed)
 			}
 			if g.debug {
 				lg := r.Log
@@ -395,13 +495,21 @@ func (g *gen) countPendingProps() int {
 }
 
 // voteAll makes every validator operator vote; opt(i) picks the option of validator i (0 = no vote).
-func (g *gen) voteAll(id uint64, opt func(i int) govv1.VoteOption) {
+func (g *gen) voteAll(id uint64, opt func(i int) govv1.VoteOption) { g.voteAllT(id, opt, false) }
+
+// voteAllT: with tight, some votes get a boundary gas limit (a vote that runs out of gas does not count, so this is only
+// used for proposals the rest of the scenario does not depend on).
+func (g *gen) voteAllT(id uint64, opt func(i int) govv1.VoteOption, tight bool) {
 	for i, v := range g.vals {
 		o := opt(i)
 		if o == govv1.OptionEmpty {
 			continue
 		}
-		g.tx(v.Oper, govv1.NewMsgVote(v.Oper.Acc(), id, o, ""))
+		if tight {
+			g.txMaybeTight(v.Oper, govv1.NewMsgVote(v.Oper.Acc(), id, o, ""))
+		} else {
+			g.tx(v.Oper, govv1.NewMsgVote(v.Oper.Acc(), id, o, ""))
+		}
 	}
 }
 
@@ -493,6 +601,12 @@ func (g *gen) run() {
 	}
 	pEth := g.submit(g.users[1], "", fx(10_000), "eth oracles", &crosschaintypes.MsgUpdateChainOracles{ChainName: ethChain, Authority: g.govAddr, Oracles: oracleAddrs})
 	pBsc := g.submit(g.users[3], "", fx(1_000+int64(g.rng.Intn(3000))), "bsc oracles", &crosschaintypes.MsgUpdateChainOracles{ChainName: "bsc", Authority: g.govAddr, Oracles: oracleAddrs[:2]})
+	// further bridged tokens: many-to-one coins whose aliases are their bridge denominations on eth (and bsc)
+	var pToks []uint64
+	for i, tk := range g.tokens {
+		md := fxtypes.GetCrossChainMetadataManyToOne("Token "+tk.sym, tk.sym, 18, tk.aliases...)
+		pToks = append(pToks, g.submit(g.users[(2*i)%6], "", fx(10_000), "register "+tk.sym, &erc20types.MsgRegisterCoin{Authority: g.govAddr, Metadata: md}))
+	}
 	g.submit(g.users[5], "", fx(10_000), "wrong authority", &crosschaintypes.MsgUpdateChainOracles{ChainName: ethChain, Authority: g.users[5].Addr(), Oracles: oracleAddrs})
 	g.submit(g.users[5], "bad-seq", fx(10_000), "never", &erc20types.MsgToggleTokenConversion{Authority: g.govAddr, Token: fxtypes.DefaultDenom})
 	g.endBlock(short, "gov submit")
@@ -500,15 +614,18 @@ func (g *gen) run() {
 	g.tx(g.users[0], govv1.NewMsgDeposit(g.users[0].Acc(), pBsc, sdk.NewCoins(fx(9_000))))
 	g.tx(g.users[2], govv1.NewMsgDeposit(g.users[2].Acc(), 999, sdk.NewCoins(fx(1))))
 	g.voteAll(pEth, yes)
+	for _, id := range pToks {
+		g.voteAll(id, yes)
+	}
 	g.endBlock(short, "gov deposit+vote")
 
 	bscPass := g.rng.Intn(2) == 0
-	g.voteAll(pBsc, func(i int) govv1.VoteOption {
+	g.voteAllT(pBsc, func(i int) govv1.VoteOption {
 		if bscPass {
 			return []govv1.VoteOption{govv1.OptionYes, govv1.OptionYes, govv1.OptionAbstain, govv1.OptionYes, govv1.OptionNo}[i%5]
 		}
 		return []govv1.VoteOption{govv1.OptionNo, govv1.OptionNoWithVeto, govv1.OptionYes, govv1.OptionNo, govv1.OptionEmpty}[i%5]
-	})
+	}, true)
 	d := g.anyUser() // a delegator overrides with a weighted vote
 	g.tx(d, govv1.NewMsgVoteWeighted(d.Acc(), pBsc, govv1.WeightedVoteOptions{
 		{Option: govv1.OptionYes, Weight: "0.3"}, {Option: govv1.OptionNo, Weight: "0.5"}, {Option: govv1.OptionAbstain, Weight: "0.2"}}, ""))
@@ -518,15 +635,20 @@ func (g *gen) run() {
 
 	// ---- phase 3: oracles bond (different powers), first oracle set request from the end blocker
 	for i, o := range g.oracles {
-		amt := fx(10_000 * int64(1+g.rng.Intn(4)))
+		amt := fx(10_000 * int64(2+g.rng.Intn(3)))
+		if i >= len(g.oracles)-g.nSmall {
+			amt = fx(10_000) // the minimum: several of these together stay below the 30% power-change threshold
+		}
 		g.tx(o, &crosschaintypes.MsgBondedOracle{ChainName: ethChain, OracleAddress: o.Addr(), BridgerAddress: g.bridgers[i].Addr(),
 			ExternalAddress: g.ext[i], ValidatorAddress: g.vals[i%len(g.vals)].Oper.Val().String(), DelegateAmount: amt})
 	}
 	g.tx(g.outsider, &crosschaintypes.MsgBondedOracle{ChainName: ethChain, OracleAddress: g.outsider.Addr(), BridgerAddress: g.users[1].Addr(),
 		ExternalAddress: g.fxToken, ValidatorAddress: g.valAddr(), DelegateAmount: fx(10_000)})
-	g.tx(g.oracles[0], &crosschaintypes.MsgBondedOracle{ChainName: "bsc", OracleAddress: g.oracles[0].Addr(), BridgerAddress: g.bridgers[0].Addr(),
-		ExternalAddress: g.ext[0], ValidatorAddress: g.valAddr(), DelegateAmount: fx(10_000 * int64(1+g.rng.Intn(2)))})
 	g.endBlock(short, "bond oracles")
+	for i := 0; i < 2; i++ { // a second message of the same signers: next block
+		g.tx(g.oracles[i], &crosschaintypes.MsgBondedOracle{ChainName: "bsc", OracleAddress: g.oracles[i].Addr(), BridgerAddress: g.bridgers[i].Addr(),
+			ExternalAddress: g.ext[i], ValidatorAddress: g.valAddr(), DelegateAmount: fx(10_000 * int64(1+g.rng.Intn(2)))})
+	}
 	g.endBlock(short, "empty")
 
 	// ---- phase 4: claims reaching quorum: bridge token, oracle set updated, send-to-fx
@@ -535,6 +657,15 @@ func (g *gen) run() {
 		return &crosschaintypes.MsgBridgeTokenClaim{EventNonce: n1, BlockHeight: h1, TokenContract: g.fxToken, Name: "Function X", Symbol: fxtypes.DefaultDenom,
 			Decimals: 18, BridgerAddress: b, ChainName: ethChain}
 	}, 0)
+	for _, tk := range g.tokens {
+		nt, ht := g.nextEvent()
+		tk := tk
+		g.claimAll(func(b string) crosschaintypes.ExternalClaim {
+			return &crosschaintypes.MsgBridgeTokenClaim{EventNonce: nt, BlockHeight: ht, TokenContract: tk.contract, Name: "Token " + tk.sym, Symbol: tk.sym,
+				Decimals: 18, BridgerAddress: b, ChainName: ethChain}
+		}, 0)
+	}
+	n1 = g.evNonce
 	g.claim(0, &crosschaintypes.MsgBridgeTokenClaim{EventNonce: n1 + 5, BlockHeight: h1, TokenContract: g.fxToken, Name: "x", Symbol: "X", Decimals: 18,
 		BridgerAddress: g.bridgers[0].Addr(), ChainName: ethChain}, "") // non-contiguous nonce
 	g.injectMsg(&crosschaintypes.MsgClaim{ChainName: ethChain, BridgerAddress: g.users[1].Addr(), Claim: mustAny(&crosschaintypes.MsgBridgeTokenClaim{
@@ -564,17 +695,29 @@ func (g *gen) run() {
 		}
 	}
 	var s2f []uint64
-	for k := 0; k < 2+g.rng.Intn(3); k++ {
+	contracts := []string{g.fxToken}
+	for _, tk := range g.tokens {
+		contracts = append(contracts, tk.contract, tk.contract) // two deposits of every further token
+	}
+	for k := 0; k < 1+g.rng.Intn(3); k++ {
+		contracts = append(contracts, g.fxToken)
+	}
+	g.rng.Shuffle(len(contracts), func(i, j int) { contracts[i], contracts[j] = contracts[j], contracts[i] })
+	for k, contractAddr := range contracts {
 		n3, h3 := g.nextEvent()
-		recv := g.users[g.rng.Intn(len(g.users))]
-		amt := sdkmath.NewInt(int64(1 + g.rng.Intn(900))).MulRaw(1e18)
+		recv := g.users[k%len(g.users)]
+		amt := sdkmath.NewInt(int64(100 + g.rng.Intn(900))).MulRaw(1e18)
 		target := ""
-		if g.rng.Intn(3) == 0 {
+		if g.rng.Intn(4) == 0 {
 			target = hex.EncodeToString([]byte("erc20"))
 		}
+		if target != "" {
+			g.erc20Holders = append(g.erc20Holders, [2]string{contractAddr, fmt.Sprint(k % len(g.users))})
+		}
 		sender := g.ext[g.rng.Intn(len(g.ext))]
+		contractAddr := contractAddr
 		g.claimAll(func(b string) crosschaintypes.ExternalClaim {
-			return &crosschaintypes.MsgSendToFxClaim{EventNonce: n3, BlockHeight: h3, TokenContract: g.fxToken, Amount: amt, Sender: sender, Receiver: recv.Addr(),
+			return &crosschaintypes.MsgSendToFxClaim{EventNonce: n3, BlockHeight: h3, TokenContract: contractAddr, Amount: amt, Sender: sender, Receiver: recv.Addr(),
 				TargetIbc: target, BridgerAddress: b, ChainName: ethChain}
 		}, 0)
 		s2f = append(s2f, n3)
@@ -604,6 +747,13 @@ func (g *gen) run() {
 
 	// ---- phase 6: power changes -> oracle set requests through the PowerDiff path
 	g.tx(g.oracles[1], &crosschaintypes.MsgAddDelegate{ChainName: ethChain, OracleAddress: g.oracles[1].Addr(), Amount: fx(int64(1 + g.rng.Intn(200)))})
+	// oracle housekeeping: reward withdrawal, re-delegation to another validator, bridger replacement (of the last oracle)
+	g.txMaybeTight(g.oracles[2], &crosschaintypes.MsgWithdrawReward{ChainName: ethChain, OracleAddress: g.oracles[2].Addr()})
+	g.txMaybeTight(g.oracles[3], &crosschaintypes.MsgReDelegate{ChainName: ethChain, OracleAddress: g.oracles[3].Addr(),
+		ValidatorAddress: g.vals[(3+1+g.rng.Intn(len(g.vals)-1))%len(g.vals)].Oper.Val().String()})
+	last := len(g.oracles) - 1
+	g.txMaybeTight(g.oracles[last], &crosschaintypes.MsgEditBridger{ChainName: ethChain, OracleAddress: g.oracles[last].Addr(),
+		BridgerAddress: detx.CosmosKey(g.seed, "bridger-replacement").Addr()})
 	g.endBlock(short, "small add-delegate (< 10%)")
 	g.tx(g.oracles[0], &crosschaintypes.MsgAddDelegate{ChainName: ethChain, OracleAddress: g.oracles[0].Addr(), Amount: fx(10_000 * int64(2+g.rng.Intn(4)))})
 	g.tx(g.oracles[2], &crosschaintypes.MsgAddDelegate{ChainName: ethChain, OracleAddress: g.oracles[2].Addr(), Amount: fx(2_000_000)}) // above maximum
@@ -613,8 +763,31 @@ func (g *gen) run() {
 	nOut := 3 + g.rng.Intn(4)
 	for k := 0; k < nOut; k++ {
 		u := g.anyUser()
-		g.tx(u, &crosschaintypes.MsgSendToExternal{Sender: u.Addr(), Dest: g.ext[g.rng.Intn(len(g.ext))], Amount: fxFrac(int64(1000 + g.rng.Intn(9000))),
+		g.txMaybeTight(u, &crosschaintypes.MsgSendToExternal{Sender: u.Addr(), Dest: g.ext[g.rng.Intn(len(g.ext))], Amount: fxFrac(int64(1000 + g.rng.Intn(9000))),
 			BridgeFee: fxFrac(int64(1 + g.rng.Intn(50))), ChainName: ethChain})
+	}
+	// the further tokens: every holder sends part of the balance out (resolves the bridge denomination of the coin);
+	// several transactions per token and several tokens => several fee-map entries, several batches
+	bank := g.c.App.BankKeeper
+	for _, tk := range g.tokens {
+		for _, u := range g.users {
+			bal := bank.GetBalance(g.c.Ctx(), u.Acc(), tk.base).Amount
+			if !bal.IsPositive() {
+				continue
+			}
+			g.out.Count("holder:" + tk.sym)
+			for k := 0; k < 1+g.rng.Intn(2); k++ {
+				amt := bal.QuoRaw(int64(4 + g.rng.Intn(8)))
+				fee := sdkmath.NewInt(int64(1 + g.rng.Intn(50))).MulRaw(1e15)
+				g.txMaybeTight(u, &crosschaintypes.MsgSendToExternal{Sender: u.Addr(), Dest: g.ext[g.rng.Intn(len(g.ext))], Amount: sdk.NewCoin(tk.base, amt),
+					BridgeFee: sdk.NewCoin(tk.base, fee), ChainName: ethChain})
+			}
+		}
+	}
+	for k := 0; k < 1+g.rng.Intn(3); k++ { // outgoing bridge calls (never confirmed: they time out / their non-signers are slashed)
+		bu := g.anyUser()
+		g.txMaybeTight(bu, &crosschaintypes.MsgBridgeCall{ChainName: ethChain, Sender: bu.Addr(), Refund: bu.Addr(),
+			Coins: sdk.NewCoins(fxFrac(int64(1 + g.rng.Intn(500)))), To: g.ext[g.rng.Intn(len(g.ext))], Data: "", Value: sdkmath.ZeroInt(), Memo: ""})
 	}
 	u := g.anyUser()
 	g.tx(u, &crosschaintypes.MsgSendToExternal{Sender: u.Addr(), Dest: g.ext[0], Amount: sdk.NewCoin("nope", sdkmath.NewInt(5)), BridgeFee: sdk.NewCoin("nope", sdkmath.NewInt(1)), ChainName: ethChain})
@@ -628,6 +801,39 @@ func (g *gen) run() {
 	g.eth(g.ethUser(), "crosschain.crossChain(value-mismatch)", "", cc, amt, 2_000_000, data)
 	g.endBlock(short, "send-to-external")
 
+	// fee increase / cancellation of pooled transfers (both resolve the token of the pooled transaction again)
+	var pooled []*crosschaintypes.OutgoingTransferTx
+	eth.IterateUnbatchedTransactions(g.c.Ctx(), "", func(tx *crosschaintypes.OutgoingTransferTx) bool {
+		pooled = append(pooled, tx)
+		return false
+	})
+	g.rng.Shuffle(len(pooled), func(i, j int) { pooled[i], pooled[j] = pooled[j], pooled[i] })
+	for i, ptx := range pooled {
+		if i >= 3 {
+			break
+		}
+		var who *detx.Key
+		for ui := range g.users {
+			if g.users[ui].Addr() == ptx.Sender {
+				who = &g.users[ui]
+			}
+		}
+		denom := fxtypes.DefaultDenom
+		for _, tk := range g.tokens {
+			if tk.contract == ptx.Token.Contract {
+				denom = tk.denom // the fee is added in the bridge denomination (which the sender does not hold: fails after the look-ups)
+			}
+		}
+		if who == nil {
+			continue
+		}
+		if i == 0 {
+			g.txMaybeTight(*who, &crosschaintypes.MsgCancelSendToExternal{TransactionId: ptx.Id, Sender: who.Addr(), ChainName: ethChain})
+		} else {
+			g.txMaybeTight(*who, &crosschaintypes.MsgIncreaseBridgeFee{ChainName: ethChain, TransactionId: ptx.Id, Sender: who.Addr(),
+				AddBridgeFee: sdk.NewCoin(denom, sdkmath.NewInt(int64(1+g.rng.Intn(9))).MulRaw(1e15))})
+		}
+	}
 	g.tx(g.bridgers[0], &crosschaintypes.MsgRequestBatch{Sender: g.bridgers[0].Addr(), Denom: fxtypes.DefaultDenom, MinimumFee: sdkmath.NewInt(1), FeeReceive: g.ext[0],
 		ChainName: ethChain, BaseFee: sdkmath.ZeroInt()})
 	g.tx(g.users[1], &crosschaintypes.MsgRequestBatch{Sender: g.users[1].Addr(), Denom: fxtypes.DefaultDenom, MinimumFee: sdkmath.NewInt(1), FeeReceive: g.ext[0],
@@ -645,6 +851,15 @@ func (g *gen) run() {
 		}
 	}
 	g.endBlock(short, "request batch")
+	for i, tk := range g.tokens { // one batch request per block and chain is allowed: the further tokens follow block by block
+		b := 1 + i%(len(g.bridgers)-1)
+		g.txMaybeTight(g.bridgers[b], &crosschaintypes.MsgRequestBatch{Sender: g.bridgers[b].Addr(), Denom: tk.denom, MinimumFee: sdkmath.NewInt(1), FeeReceive: g.ext[b],
+			ChainName: ethChain, BaseFee: sdkmath.ZeroInt()})
+		u := g.anyUser()
+		g.txMaybeTight(u, &crosschaintypes.MsgSendToExternal{Sender: u.Addr(), Dest: g.ext[g.rng.Intn(len(g.ext))], Amount: fxFrac(int64(1000 + g.rng.Intn(9000))),
+			BridgeFee: fxFrac(int64(1 + g.rng.Intn(50))), ChainName: ethChain})
+		g.endBlock(short, "request batch "+tk.sym)
+	}
 
 	for _, batch := range eth.GetOutgoingTxBatches(g.c.Ctx()) {
 		cp, err := batch.GetCheckpoint(eth.GetGravityID(g.c.Ctx()))
@@ -665,7 +880,22 @@ func (g *gen) run() {
 		g.tx(u, &crosschaintypes.MsgSendToExternal{Sender: u.Addr(), Dest: g.ext[1], Amount: fxFrac(int64(10 + g.rng.Intn(90))), BridgeFee: fxFrac(int64(1 + g.rng.Intn(5))), ChainName: ethChain})
 	}
 	g.endBlock(short, "confirm batch")
-	for _, batch := range eth.GetOutgoingTxBatches(g.c.Ctx()) {
+	batches := eth.GetOutgoingTxBatches(g.c.Ctx())
+	g.out.Count(fmt.Sprintf("batches-pending:%d", len(batches)))
+	if g.rng.Intn(2) == 0 {
+		// the external chain is far ahead when the next events are observed: the batches and bridge calls that are not
+		// executed now have timed out (cancelled / refunded in the same pass over the store)
+		g.extBlock += 100_000
+		g.out.Count("external-height-jump")
+	}
+	keep := -1
+	if len(batches) > 1 {
+		keep = g.rng.Intn(len(batches)) // this one is never executed: it times out / its non-signers are slashed
+	}
+	for bi, batch := range batches {
+		if bi == keep {
+			continue
+		}
 		n4, h4 := g.nextEvent()
 		bn, tc := batch.BatchNonce, batch.TokenContract
 		g.claimAll(func(b string) crosschaintypes.ExternalClaim {
@@ -685,6 +915,10 @@ func (g *gen) run() {
 		id   uint64
 		vote func(int) govv1.VoteOption
 	}
+	// oracle-set proposals computed from the bonded powers: one that drops SEVERAL bonded oracles at once while staying
+	// below the 30% power-change threshold (every dropped oracle is unbonded by the proposal handler, in some order),
+	// and one that drops the biggest oracles until the threshold is reached (rejected on execution)
+	dropSmall, dropBig := g.oracleDrops(oracleAddrs)
 	no := func(i int) govv1.VoteOption { return []govv1.VoteOption{govv1.OptionNo, govv1.OptionNoWithVeto}[i%2] }
 	props := []prop{
 		{g.submit(g.users[1], "", fx(10_000), "toggle FX", &erc20types.MsgToggleTokenConversion{Authority: g.govAddr, Token: fxtypes.DefaultDenom}), yes},
@@ -697,16 +931,45 @@ func (g *gen) run() {
 		{g.submit(g.users[1], "", fx(10_000), "custom params", &fxgovtypes.MsgUpdateCustomParams{Authority: g.govAddr, MsgUrl: sdk.MsgTypeURL(&distrtypes.MsgCommunityPoolSpend{}),
 			CustomParams: *fxgovtypes.NewCustomParams("0.5", vp, "0.3")}), yes},
 		{g.submit(g.users[3], "", fx(10_000), "rejected oracles", &crosschaintypes.MsgUpdateChainOracles{ChainName: ethChain, Authority: g.govAddr, Oracles: oracleAddrs[:1]}), no},
-		{g.submit(g.users[5], "", fx(10_000), "drop too much power", &crosschaintypes.MsgUpdateChainOracles{ChainName: ethChain, Authority: g.govAddr, Oracles: oracleAddrs[1:]}), yes},
+		{g.submit(g.users[4], "", fx(10_000), "drop several small oracles", &crosschaintypes.MsgUpdateChainOracles{ChainName: ethChain, Authority: g.govAddr, Oracles: dropSmall}), yes},
+		{g.submit(g.users[5], "", fx(10_000), "drop too much power", &crosschaintypes.MsgUpdateChainOracles{ChainName: ethChain, Authority: g.govAddr, Oracles: dropBig}), yes},
 		{g.submit(g.users[0], "", fx(10_000), "spend", &distrtypes.MsgCommunityPoolSpend{Authority: g.govAddr, Recipient: g.users[0].Addr(), Amount: sdk.NewCoins(fxFrac(1))}), yes},
 	}
 	g.submit(g.users[4], "", fx(10_000), "bad eth params", &crosschaintypes.MsgUpdateParams{ChainName: ethChain, Authority: g.govAddr, Params: badParams}) // rejected at submission
 	g.endBlock(short, "fx gov proposals")
 	perm := g.rng.Perm(len(props))
 	for _, pi := range perm {
-		g.voteAll(props[pi].id, props[pi].vote)
+		// the oracle-set and parameter proposals must come out as planned; the others may lose votes to tight gas limits
+		g.voteAllT(props[pi].id, props[pi].vote, pi != 2 && pi != 6 && pi != 7 && pi != 8)
 	}
 	g.endBlock(short, "votes")
+	// gov Tally of every proposal in its voting period, on a discarded branch: the real result against the sum of the
+	// contributions computed independently per validator
+	for _, pr := range props {
+		g.probeTally(pr.id)
+	}
+	// correspondence probes of UpdateProposalOracles on a discarded branch of the committed state (all oracles bonded)
+	g.probeUpdateOracles(dropSmall)
+	g.probeUpdateOracles(dropBig)
+	g.probeUpdateOracles(oracleAddrs)
+	for k := 0; k < 6; k++ {
+		var sub []string
+		for _, a := range oracleAddrs {
+			if g.rng.Intn(4) != 0 {
+				sub = append(sub, a)
+			}
+		}
+		if g.rng.Intn(3) == 0 {
+			sub = append(sub, g.users[1].Addr()) // never bonded
+		}
+		g.rng.Shuffle(len(sub), func(i, j int) { sub[i], sub[j] = sub[j], sub[i] })
+		g.probeUpdateOracles(sub)
+	}
+	var many []string
+	for k := 0; k < 101; k++ {
+		many = append(many, detx.CosmosKey(g.seed, fmt.Sprintf("many%d", k)).Addr())
+	}
+	g.probeUpdateOracles(many)
 	g.endBlock(7*day+time.Second, "7-day custom voting periods end")
 	g.endBlock(7*day+time.Second, "14-day voting periods end")
 
@@ -734,6 +997,30 @@ func (g *gen) run() {
 		g.endBlock(short, "signed window / slashing")
 	}
 	g.endBlock(22*day, "unbonding period elapses")
+	for i, o := range g.oracles { // the oracles dropped by the proposal take their stake back
+		if !contains(dropSmall, o.Addr()) {
+			g.txMaybeTight(g.oracles[i], &crosschaintypes.MsgUnbondedOracle{ChainName: ethChain, OracleAddress: o.Addr()})
+		}
+	}
+	g.tx(g.oracles[0], &crosschaintypes.MsgUnbondedOracle{ChainName: ethChain, OracleAddress: g.oracles[0].Addr()}) // still a proposal oracle
+	for _, tk := range g.tokens {                                                                                   // holders of the ERC-20 side convert back to coins
+		if pair, ok := g.c.App.Erc20Keeper.GetTokenPair(g.c.Ctx(), tk.base); ok {
+			for ui, cu := range g.users {
+				holds := false
+				for _, h := range g.erc20Holders {
+					if h[0] == tk.contract && h[1] == fmt.Sprint(ui) {
+						holds = true
+					}
+				}
+				if !holds && ui != 0 {
+					continue // user 0 always tries (fails without a balance)
+				}
+				// routed directly: the snapshot's tx decoder cannot take the signer from a hex `sender`
+				g.injectMsg(&erc20types.MsgConvertERC20{ContractAddress: pair.Erc20Address, Amount: sdkmath.NewInt(int64(1 + g.rng.Intn(1000))).MulRaw(1e15),
+					Receiver: cu.Addr(), Sender: cu.Hex().Hex()})
+			}
+		}
+	}
 	from := g.anyUser()
 	g.tx(from, banktypes.NewMsgSend(from.Acc(), g.anyUser().Acc(), sdk.NewCoins(fxFrac(5))))
 	g.endBlock(short, "final")
@@ -752,6 +1039,233 @@ func (g *gen) run() {
 		fmt.Printf("final: oracles online=%d offline=%d oracle-set-nonce=%d observed-event-nonce=%d slashed-at=%d\n", online, offline,
 			eth.GetLatestOracleSetNonce(ctx), eth.GetLastObservedEventNonce(ctx), eth.GetLastOracleSlashBlockHeight(ctx))
 	}
+}
+
+// oracleDrops returns two new oracle lists for MsgUpdateChainOracles: (a) the current list without as many of the
+// least powerful bonded oracles as stay strictly below the 30% threshold (at least two whenever two fit), in a seeded
+// order; (b) the current list without the most powerful oracles, enough to reach the threshold.
+func (g *gen) oracleDrops(current []string) (small, big []string) {
+	eth := g.c.App.EthKeeper
+	all := eth.GetAllOracles(g.c.Ctx(), false)
+	total := sdkmath.ZeroInt()
+	for _, o := range all {
+		if o.Online {
+			total = total.Add(o.GetPower())
+		}
+	}
+	threshold := crosschaintypes.AttestationProposalOracleChangePowerThreshold.Mul(total).Quo(sdkmath.NewInt(100))
+	asc := append(crosschaintypes.Oracles{}, all...)
+	for i := 1; i < len(asc); i++ { // insertion sort by (power, address): no dependence on sort stability
+		for j := i; j > 0 && (asc[j].GetPower().LT(asc[j-1].GetPower()) || (asc[j].GetPower().Equal(asc[j-1].GetPower()) && asc[j].OracleAddress < asc[j-1].OracleAddress)); j-- {
+			asc[j], asc[j-1] = asc[j-1], asc[j]
+		}
+	}
+	drop := map[string]bool{}
+	sum := sdkmath.ZeroInt()
+	for _, o := range asc {
+		if !o.Online {
+			continue
+		}
+		if next := sum.Add(o.GetPower()); next.LT(threshold) {
+			sum = next
+			drop[o.OracleAddress] = true
+		}
+	}
+	g.out.Count(fmt.Sprintf("proposal-drops-oracles:%d", len(drop)))
+	for _, a := range current {
+		if !drop[a] {
+			small = append(small, a)
+		}
+	}
+	g.rng.Shuffle(len(small), func(i, j int) { small[i], small[j] = small[j], small[i] })
+	dropB := map[string]bool{}
+	sum = sdkmath.ZeroInt()
+	for i := len(asc) - 1; i >= 0 && sum.LT(threshold); i-- {
+		if asc[i].Online {
+			sum = sum.Add(asc[i].GetPower())
+			dropB[asc[i].OracleAddress] = true
+		}
+	}
+	for _, a := range current {
+		if !dropB[a] {
+			big = append(big, a)
+		}
+	}
+	return small, big
+}
+
+// probeUpdateOracles runs the real UpdateProposalOracles on a branch of the committed state and records the op line for
+// the Lean machine model (oracles in store order with power / online / delegation, stored proposal, new list) together
+// with the observation: the error kind, or the dropped oracles in the order of the unbonding ids x/staking gave them.
+func (g *gen) probeUpdateOracles(newList []string) {
+	eth := g.c.App.EthKeeper
+	sk := g.c.App.StakingKeeper
+	ctx, _ := g.c.Ctx().CacheContext()
+	ctx = ctx.WithEventManager(sdk.NewEventManager())
+	all := eth.GetAllOracles(ctx, false)
+	list := func(l []string) string {
+		if len(l) == 0 {
+			return "-"
+		}
+		return strings.Join(l, ",")
+	}
+	ids := func(o crosschaintypes.Oracle) map[uint64]bool {
+		out := map[uint64]bool{}
+		if ubd, err := sk.GetUnbondingDelegation(ctx, o.GetDelegateAddress(ethChain), o.GetValidator()); err == nil {
+			for _, e := range ubd.Entries {
+				out[e.UnbondingId] = true
+			}
+		}
+		return out
+	}
+	var os []string
+	before := map[string]map[uint64]bool{}
+	for _, o := range all {
+		del := uint64(0)
+		if tok, err := eth.GetOracleDelegateToken(ctx, o.GetDelegateAddress(ethChain), o.GetValidator()); err == nil && tok.IsPositive() {
+			del = tok.Quo(sdkmath.NewInt(1e18)).Uint64() + 1
+		}
+		on := 0
+		if o.Online {
+			on = 1
+		}
+		os = append(os, fmt.Sprintf("%s:%s:%d:%d", o.OracleAddress, o.GetPower().String(), on, del))
+		before[o.OracleAddress] = ids(o)
+	}
+	old, _ := eth.GetProposalOracle(ctx)
+	op := fmt.Sprintf("updateoracles %s | %s | %s", list(os), list(old.Oracles), list(newList))
+	obs := ""
+	if err := eth.UpdateProposalOracles(ctx, newList); err != nil {
+		switch {
+		case strings.Contains(err.Error(), "oracle length must be less"):
+			obs = "err:too-many"
+		case strings.Contains(err.Error(), "max change power"):
+			obs = "err:max-change"
+		default:
+			obs = "err:unbond"
+		}
+	} else {
+		type nu struct {
+			addr string
+			id   uint64
+		}
+		var fresh []nu
+		for _, o := range all {
+			for id := range ids(o) {
+				if !before[o.OracleAddress][id] {
+					fresh = append(fresh, nu{o.OracleAddress, id})
+				}
+			}
+		}
+		for i := 1; i < len(fresh); i++ {
+			for j := i; j > 0 && fresh[j].id < fresh[j-1].id; j-- {
+				fresh[j], fresh[j-1] = fresh[j-1], fresh[j]
+			}
+		}
+		var order []string
+		for _, f := range fresh {
+			order = append(order, f.addr)
+		}
+		obs = "ok:" + list(order)
+		g.out.Count(fmt.Sprintf("probe-updateoracles:unbonded=%d", len(order)))
+	}
+	if strings.HasPrefix(obs, "err") {
+		g.out.Count("probe-updateoracles:" + obs)
+	}
+	g.probes = append(g.probes, [2]string{op, obs})
+}
+
+// probeTally runs the real gov Tally of a proposal on a branch of the committed state and records an op line carrying
+// (a) the part accumulated while walking the votes in store order (delegators' own voting power) and (b) one contribution
+// vector per bonded validator that voted (shares after deductions * bonded / shares, split by the vote's weights), both
+// computed here independently of Tally; the Lean model adds them up (in any order) and truncates.
+func (g *gen) probeTally(id uint64) {
+	gk, sk := g.c.App.GovKeeper, g.c.App.StakingKeeper
+	ctx, _ := g.c.Ctx().CacheContext()
+	prop, err := gk.Proposals.Get(ctx, id)
+	if err != nil || prop.Status != govv1.StatusVotingPeriod {
+		return
+	}
+	type valInfo struct {
+		bonded     sdkmath.Int
+		shares     sdkmath.LegacyDec
+		deductions sdkmath.LegacyDec
+		vote       govv1.WeightedVoteOptions
+	}
+	vals := map[string]*valInfo{}
+	var order []string
+	_ = sk.IterateBondedValidatorsByPower(ctx, func(_ int64, v stakingtypes.ValidatorI) bool {
+		vals[v.GetOperator()] = &valInfo{bonded: v.GetBondedTokens(), shares: v.GetDelegatorShares(), deductions: sdkmath.LegacyZeroDec()}
+		order = append(order, v.GetOperator())
+		return false
+	})
+	zero := func() []sdkmath.LegacyDec {
+		return []sdkmath.LegacyDec{sdkmath.LegacyZeroDec(), sdkmath.LegacyZeroDec(), sdkmath.LegacyZeroDec(), sdkmath.LegacyZeroDec(), sdkmath.LegacyZeroDec()}
+	}
+	idx := map[govv1.VoteOption]int{govv1.OptionYes: 0, govv1.OptionAbstain: 1, govv1.OptionNo: 2, govv1.OptionNoWithVeto: 3}
+	addTo := func(vec []sdkmath.LegacyDec, power sdkmath.LegacyDec, opts govv1.WeightedVoteOptions) {
+		for _, o := range opts {
+			w, _ := sdkmath.LegacyNewDecFromStr(o.Weight)
+			vec[idx[o.Option]] = vec[idx[o.Option]].Add(power.Mul(w))
+		}
+		vec[4] = vec[4].Add(power)
+	}
+	base := zero()
+	rng := collections.NewPrefixedPairRange[uint64, sdk.AccAddress](id)
+	nVotes := 0
+	_ = gk.Votes.Walk(ctx, rng, func(key collections.Pair[uint64, sdk.AccAddress], vote govv1.Vote) (bool, error) {
+		nVotes++
+		voter := sdk.MustAccAddressFromBech32(vote.Voter)
+		if v, ok := vals[sdk.ValAddress(voter).String()]; ok {
+			v.vote = vote.Options
+		}
+		_ = sk.IterateDelegations(ctx, voter, func(_ int64, d stakingtypes.DelegationI) bool {
+			if v, ok := vals[d.GetValidatorAddr()]; ok {
+				v.deductions = v.deductions.Add(d.GetShares())
+				addTo(base, d.GetShares().MulInt(v.bonded).Quo(v.shares), vote.Options)
+			}
+			return false
+		})
+		return false, nil
+	})
+	render := func(vec []sdkmath.LegacyDec) string {
+		var p []string
+		for _, d := range vec {
+			p = append(p, d.BigInt().String())
+		}
+		return strings.Join(p, ":")
+	}
+	var contribs []string
+	for _, op := range order {
+		v := vals[op]
+		if len(v.vote) == 0 {
+			continue
+		}
+		c := zero()
+		addTo(c, v.shares.Sub(v.deductions).MulInt(v.bonded).Quo(v.shares), v.vote)
+		contribs = append(contribs, render(c))
+	}
+	g.rng.Shuffle(len(contribs), func(i, j int) { contribs[i], contribs[j] = contribs[j], contribs[i] })
+	cs := "-"
+	if len(contribs) > 0 {
+		cs = strings.Join(contribs, ";")
+	}
+	_, _, res, err := gk.Tally(ctx, prop)
+	if err != nil {
+		return
+	}
+	g.out.Count(fmt.Sprintf("probe-tally:votes=%d,validators-voted=%d", min(nVotes, 9), len(contribs)))
+	g.tallies = append(g.tallies, [2]string{fmt.Sprintf("tallyop %s | %s", render(base), cs),
+		fmt.Sprintf("%s:%s:%s:%s", res.YesCount, res.AbstainCount, res.NoCount, res.NoWithVetoCount)})
+}
+
+func contains(l []string, x string) bool {
+	for _, e := range l {
+		if e == x {
+			return true
+		}
+	}
+	return false
 }
 
 func mustAny(c crosschaintypes.ExternalClaim) *codectypes.Any {
